@@ -34,6 +34,7 @@ type propDef struct {
 	Mode      string   // VERIF_MODE
 	Pkgs      []string // root packages for the instrumenter
 	StmtYield string
+	SetConst  string
 	QuickS    int
 	ThoroughS int
 	Recycle   int // runs per worker process (0 = unlimited)
@@ -221,6 +222,9 @@ func build(p propDef) *built {
 	if p.StmtYield != "" {
 		args = append(args, "-stmtyield", p.StmtYield)
 	}
+	if p.SetConst != "" {
+		args = append(args, "-setconst", p.SetConst)
+	}
 	args = append(args, p.Pkgs...)
 	cmd := exec.Command(instr, args...)
 	cmd.Env = goEnv()
@@ -282,6 +286,9 @@ func runWorker(p propDef, b *built, o runOpts) (msgs []workerMsg, output string,
 	stdout, _ := cmd.StdoutPipe()
 	var errBuf strings.Builder
 	cmd.Stderr = &errBuf
+	if os.Getenv("VERIF_STDERR") != "" { // debugging aid
+		cmd.Stderr = os.Stderr
+	}
 	if err = cmd.Start(); err != nil {
 		return nil, "", err
 	}
